@@ -283,6 +283,11 @@ func run(ctx context.Context, t interface {
 	got, gotErr := runCheck(ctx, c, img, old, cfg.Use, cfg.Except, cfg.Ignore, cfg.IgnoreOnly, cfg.AllowCommentIgnores, cfg.ExcludeImports)
 	r.Eval()
 	r.Class(c.Kind + ":" + cfg.Version)
+	for _, d := range c.Directives {
+		if strings.HasSuffix(d.Elem, "#extend") {
+			r.Class("directive-on-extend-block")
+		}
+	}
 	if cfg.ExcludeImports {
 		r.Class("breaking:exclude-imports")
 	}
@@ -619,7 +624,19 @@ func elementsAt(ws *protogen.Workspace, rw *protogen.RenderedWorkspace, path str
 				consider(fld.ID)
 			}
 		}
+		for _, x := range m.Msg.Extensions {
+			if x.Group == nil {
+				consider(x.ID)
+				consider(x.ID + "#extend")
+			}
+		}
 	})
+	for _, x := range f.Extensions {
+		if x.Group == nil {
+			consider(x.ID)
+			consider(x.ID + "#extend")
+		}
+	}
 	f.WalkEnums(func(er protogen.EnumRef) {
 		consider(er.Enum.ID)
 		for _, v := range er.Enum.Values {
@@ -651,7 +668,27 @@ func addDirective(ws *protogen.Workspace, id, rule string) bool {
 					done = true
 				}
 			}
+			for _, x := range m.Msg.Extensions {
+				if x.ID == id {
+					add(&x.Comment)
+					done = true
+				}
+				if x.ID+"#extend" == id {
+					add(&x.ExtendComment)
+					done = true
+				}
+			}
 		})
+		for _, x := range f.Extensions {
+			if x.ID == id {
+				add(&x.Comment)
+				done = true
+			}
+			if x.ID+"#extend" == id {
+				add(&x.ExtendComment)
+				done = true
+			}
+		}
 		f.WalkEnums(func(er protogen.EnumRef) {
 			if er.Enum.ID == id {
 				add(&er.Enum.Comment)
@@ -709,9 +746,33 @@ func genLint(ctx context.Context, t *rapid.T) *Case {
 	type placed struct{ id, rule string }
 	var placedDirs []placed
 	nDir := rapid.IntRange(0, 4).Draw(t, "directives")
+	// annotations inside an extend block are few: give them their own share
+	var inExtend []bufx.Ann
+	for _, a := range all {
+		for _, id := range elementsAt(ws, rw, a.Path, a.Line, a.Col) {
+			if strings.HasSuffix(id, "#extend") {
+				inExtend = append(inExtend, a)
+				break
+			}
+		}
+	}
 	for i := 0; i < nDir && len(all) > 0; i++ {
 		a := all[rapid.IntRange(0, len(all)-1).Draw(t, "dir-ann")]
+		preferBlock := false
+		if len(inExtend) > 0 && rapid.IntRange(0, 2).Draw(t, "dir-in-extend") == 0 {
+			a = inExtend[rapid.IntRange(0, len(inExtend)-1).Draw(t, "dir-ext-ann")]
+			preferBlock = rapid.Bool().Draw(t, "dir-on-block")
+		}
 		elems := elementsAt(ws, rw, a.Path, a.Line, a.Col)
+		if preferBlock {
+			var blocks []string
+			for _, id := range elems {
+				if strings.HasSuffix(id, "#extend") {
+					blocks = append(blocks, id)
+				}
+			}
+			elems = blocks
+		}
 		rule := a.Type
 		switch rapid.IntRange(0, 5).Draw(t, "dir-kind") {
 		case 0: // another rule id on the right element
@@ -734,7 +795,11 @@ func genLint(ctx context.Context, t *rapid.T) *Case {
 	c.Files = rw.ByModule
 	for _, p := range placedDirs {
 		pos := rw.Pos[p.id]
-		c.Directives = append(c.Directives, Directive{Rule: p.rule, File: rw.FileOf[p.id], Start: pos.Start, End: pos.End, Elem: p.id})
+		file := rw.FileOf[p.id]
+		if strings.HasSuffix(p.id, "#extend") {
+			file = rw.FileOf[strings.TrimSuffix(p.id, "#extend")]
+		}
+		c.Directives = append(c.Directives, Directive{Rule: p.rule, File: file, Start: pos.Start, End: pos.End, Elem: p.id})
 	}
 	c.Config = genConfig(t, "lint", allPaths(c.Files), protogen.SortedKeys(hotSet))
 	return c
